@@ -51,10 +51,18 @@ def make_cases(ctx, n):
         sizes = gen.SIZES + ([64, 65, 100, 128, 129] if big else [])
         tree = gen.rand_tree(ctx.rng, depth=ctx.rng.choice([1, 2, 3, 3, 4]), fanout=ctx.rng.choice([3, 4, 5]), sizes=sizes)
         opts = gen.rand_opts(ctx.rng)
-        steps = [{"op": "init"}, {"op": "mktree", "path": "src", "tree": tree}, {"op": "snap", "path": "src"},
-                 {"op": "walk"}, {"op": "backup", "opts": opts}, {"op": "list", "band": 0}, {"op": "arch"},
-                 {"op": "restore", "dest": "out"}, {"op": "versions"}]
-        cases.append({"id": f"r{t}", "tree": tree, "opts": opts, "steps": steps})
+        steps = [{"op": "init"}]
+        band = 0
+        if t % 3 == 2:
+            # the archive already holds an earlier version of (a variant of) this tree: metadata-only
+            # changes (chmod, chown, retarget) and content changes must all show in the new version
+            earlier, _ = gen.mutate_tree(ctx.rng, tree)
+            steps += [{"op": "mktree", "path": "src", "tree": earlier}, {"op": "backup", "opts": gen.rand_opts(ctx.rng)}]
+            band = 1
+        steps += [{"op": "mktree", "path": "src", "tree": tree}, {"op": "snap", "path": "src"},
+                  {"op": "walk"}, {"op": "backup", "opts": opts}, {"op": "list", "band": band}, {"op": "arch"},
+                  {"op": "restore", "dest": "out"}, {"op": "versions"}]
+        cases.append({"id": f"r{t}", "tree": tree, "opts": opts, "steps": steps, "earlier": band == 1})
     return cases
 
 
@@ -73,11 +81,11 @@ def run(ctx):
     for c in cases:
         r = res.get(c["id"])
         ctx.count()
-        small = {"tree": c["tree"], "opts": c["opts"]}
+        small = {"tree": c["tree"], "opts": c["opts"]} if not c.get("earlier") else {"steps": c["steps"], "tree": c["tree"], "opts": c["opts"]}
         if r is None:
             ctx.oracle_fail("roundtrip/harness-died", "harness died or hung", small)
             continue
-        snap, walk, bk, lst, arch, rs, vers = r[2], r[3], r[4], r[5], r[6], r[7], r[8]
+        snap, walk, bk, lst, arch, rs, vers = r[-7], r[-6], r[-5], r[-4], r[-3], r[-2], r[-1]
         pan = [x.get("panic") for x in r if isinstance(x, dict) and x.get("panic")]
         if pan:
             ctx.oracle_fail("roundtrip/panic", f"backup or restore crashed: {pan[0][:200]}", small)
@@ -133,7 +141,7 @@ def run(ctx):
                     continue
                 raw = e["raw"]
                 content = bytes.fromhex(n["data"]) if n["k"] == "f" else b""
-                large = 1 if (n["k"] == "f" and len(content) > c["opts"]["sfc"]) else 0
+                large = 1 if (n["k"] == "f" and len(content) > c["opts"]["sfc"] and not c.get("earlier")) else 0
                 ents.append("(%s, (%d)%%Z, %s, %s, %d)" % (coqfmt.g_entry(raw, table), n["mtime"], gallina_str(content),
                                                          "true" if n["k"] == "f" else "false", large))
             blocks = gallina_list([gallina_str(v) for v in table.values()])
@@ -186,6 +194,12 @@ Definition results : list N := """ + gallina_list(defs) + ".\nEval vm_compute in
 def replay(ctx, rep):
     r = rep.get("replay", rep)
     ctx.build()
+    if "steps" in r:
+        out = ctx.cvh_run([{"id": "r", "steps": r["steps"]}])["r"]
+        print("backup:", out[-5].get("result"), out[-5].get("err"), out[-5].get("panic"), out[-5].get("monitor_errors"))
+        print("restore:", out[-2].get("result"), out[-2].get("err"), out[-2].get("panic"), out[-2].get("monitor_errors"))
+        print("first difference (path, field, source, restored):", first_difference(strip(out[-7]["tree"]), strip(out[-2].get("tree"))))
+        return 0
     c = {"id": "r", "steps": [{"op": "init"}, {"op": "mktree", "path": "src", "tree": r["tree"]}, {"op": "snap", "path": "src"},
                               {"op": "backup", "opts": r.get("opts", {})}, {"op": "restore", "dest": "out"}]}
     out = ctx.cvh_run([c])["r"]
